@@ -130,8 +130,8 @@ KeyCtx *get_key(const ParamSpec &sp, uint64_t kseed) {
     std::string id = sp.str() + "#" + std::to_string(kseed);
     auto it = g_keys.find(id);
     if (it != g_keys.end()) return it->second.get();
-    // evict (oldest first) to stay under ~1.5 GB per worker
-    while (!g_key_order.empty() && g_key_bytes + key_bytes(sp) > (size_t) 1500e6) {
+    // evict (oldest first) to stay under ~0.9 GB per worker
+    while (!g_key_order.empty() && g_key_bytes + key_bytes(sp) > (size_t) 900e6) {
         std::string old = g_key_order.front();
         g_key_order.erase(g_key_order.begin());
         auto o = g_keys.find(old);
